@@ -49,6 +49,16 @@ def hashableKey : Cbor → Bool
   | .map _ => false
   | _ => true
 
+/-- fxamacker validates the content type of the built-in tags: 0 (text date/time), 1 (epoch number),
+    2 and 3 (bignum byte string) -/
+def tagContentOk (t : Nat) : Cbor → Bool
+  | .tstr _ => t ≠ 1 && t ≠ 2 && t ≠ 3
+  | .uint _ => t ≠ 0 && t ≠ 2 && t ≠ 3
+  | .nint _ => t ≠ 0 && t ≠ 2 && t ≠ 3
+  | .float _ _ => t ≠ 0 && t ≠ 2 && t ≠ 3
+  | .bstr _ => t ≠ 0 && t ≠ 1
+  | _ => t ≥ 4
+
 /-- keys are compared by value; two keys have the same value iff their canonical encodings coincide -/
 def nodupKeys (kvs : List (Cbor × Cbor)) : Bool :=
   decide ((kvs.map (fun kv => encode kv.1)).Nodup)
@@ -80,7 +90,7 @@ mutual
         else if mt = 6 then
           (if d = 0 then none else
             match decode f (d - 1) r with
-            | some (v, r') => some (.tag n v, r')
+            | some (v, r') => if tagContentOk n v then some (.tag n v, r') else none
             | none => none)
         else
           (if ai < 24 then some (.simple n, r)
